@@ -182,8 +182,43 @@ let p_handle (p : string) : string =
     Buffer.contents b
   | _ -> "bad-payload"
 
+(* SelectServer-level registration: "S op;..."; one RunOnce = ExecuteTimeouts before the wait, and twice after *)
+let s_handle (p : string) : string =
+  let body = String.sub p 2 (String.length p - 2) in
+  let ops = String.split_on_char ';' body in
+  let st = ref init in
+  let trs = ref [] in
+  let big = ref false and fired = ref 0 in
+  let yes = List.init 40 (fun _ -> { acts = []; sret = true }) in
+  List.iter (fun o ->
+    if o <> "" then begin
+      let rest = String.sub o 1 (String.length o - 1) in
+      let before = List.length !st.log in
+      (match o.[0] with
+       | 'm' | 'i' -> (match String.split_on_char ',' rest with
+           | [rep; v] ->
+             let v = n_of_string v in
+             let iv = if o.[0] = 'm' then ms_to_us v else v in
+             (if int_of_n (fst (N.div_eucl iv (n_of_int 1000000))) > 4294 then big := true);
+             st := do_reg t_alloc !st (rep = "1") iv N0
+           | _ -> failwith "bad reg")
+       | 'a' -> st := do_advance !st (n_of_string rest)
+       | 'x' ->
+         for _ = 1 to 3 do
+           (match do_exec t_alloc t_pick !st yes with Some (s', _) -> st := s' | None -> failwith "oof")
+         done
+       | _ -> failwith "bad op");
+      let newl = List.rev (t_take_new !st.log (List.length !st.log - before)) in
+      let fs = List.filter_map (fun e -> match e with
+          | LFire (ev, now) -> incr fired; Some ("F" ^ string_of_n ev.eser ^ "@" ^ string_of_n now) | _ -> None) newl in
+      trs := String.concat "," fs :: !trs
+    end) ops;
+  let tr = String.concat "/" (List.rev !trs) in
+  Printf.sprintf "se=%s;ss=%s;class=S:%s%s" tr tr (if !big then "over32bit-us" else "small")
+    (if !fired > 0 then "+fire" else "")
 let handle (p : string) : string =
   if String.length p >= 2 && p.[0] = 'T' then t_handle p
+  else if String.length p >= 2 && p.[0] = 'S' then s_handle p
   else if String.length p >= 2 && p.[0] = 'P' then p_handle p
   else "bad-payload"
 let () = vh_run handle
